@@ -157,6 +157,46 @@ pub fn start_watchdog(secs: u64) {
 // ---------------------------------------------------------------------------
 // guarded calls into ais
 
+/// Every input slice handed to `ais` is placed at a rotating offset 0..7 from an 8-aligned
+/// address: what a function returns must not depend on where its input happens to lie in memory
+/// (word-at-a-time implementations treat the unaligned head of a slice separately).
+static ALIGN: std::sync::atomic::AtomicUsize = std::sync::atomic::AtomicUsize::new(0);
+
+thread_local! {
+    static SCRATCH: std::cell::RefCell<Vec<u64>> = std::cell::RefCell::new(Vec::new());
+}
+
+pub fn next_offset() -> usize {
+    ALIGN.fetch_add(1, std::sync::atomic::Ordering::Relaxed) % 8
+}
+
+/// run `f` on a copy of `data` that starts `off` bytes after an 8-aligned address
+pub fn at_offset<T>(data: &[u8], off: usize, f: impl FnOnce(&[u8]) -> T) -> T {
+    // inputs of many megabytes are passed as they are (a second copy would double the memory)
+    if data.len() > (8 << 20) {
+        return f(data);
+    }
+    SCRATCH.with(|sc| {
+        let mut words = match sc.try_borrow_mut() {
+            Ok(w) => w,
+            Err(_) => return f(data),
+        };
+        let need = (data.len() + 8 + 7) / 8 + 1;
+        if words.len() < need {
+            words.resize(need, 0);
+        }
+        // a Vec<u64> is 8-aligned; view it as bytes
+        let bytes: &mut [u8] = unsafe { std::slice::from_raw_parts_mut(words.as_mut_ptr() as *mut u8, words.len() * 8) };
+        bytes[off..off + data.len()].copy_from_slice(data);
+        // poison the neighbours so that a read past either end shows in the results
+        if off > 0 {
+            bytes[off - 1] = 0xA5;
+        }
+        bytes[off + data.len()] = 0x5A;
+        f(&bytes[off..off + data.len()])
+    })
+}
+
 pub struct Parser {
     pub p: ais::AisParser,
     pub poisoned: bool,
@@ -218,9 +258,12 @@ impl Parser {
     pub fn parse(&mut self, line: &[u8], decode: bool) -> Call {
         trace("L", line, decode as u64);
         let p = &mut self.p;
+        let off = next_offset();
         match guard(|| {
-            let r = p.parse(line, decode);
-            observe::outcome(&r)
+            at_offset(line, off, |l| {
+                let r = p.parse(l, decode);
+                observe::outcome(&r)
+            })
         }) {
             Ok(o) => Call::Done(o),
             Err(pi) => {
@@ -250,7 +293,11 @@ impl Parser {
 
 pub fn call_unarmor(data: &[u8], fill: usize) -> Result<Option<Vec<u8>>, PanicInfo> {
     trace("U", data, fill as u64);
-    guard(|| ais::messages::unarmor(data, fill).ok().map(|v| v[..].to_vec()))
+    call_unarmor_at(data, fill, next_offset())
+}
+
+pub fn call_unarmor_at(data: &[u8], fill: usize, off: usize) -> Result<Option<Vec<u8>>, PanicInfo> {
+    guard(|| at_offset(data, off, |d| ais::messages::unarmor(d, fill).ok().map(|v| v[..].to_vec())))
 }
 
 pub enum MsgCall {
@@ -261,7 +308,8 @@ pub enum MsgCall {
 
 pub fn call_message(buf: &[u8]) -> MsgCall {
     trace("M", buf, 0);
-    match guard(|| ais::messages::parse(buf).ok().map(|m| (observe::message(&m), format!("{:?}", m)))) {
+    let off = next_offset();
+    match guard(|| at_offset(buf, off, |b| ais::messages::parse(b).ok().map(|m| (observe::message(&m), format!("{:?}", m))))) {
         Ok(Some((o, d))) => MsgCall::Ok(o, d),
         Ok(None) => MsgCall::Err,
         Err(p) => MsgCall::Panic(p),
